@@ -291,7 +291,7 @@ class Ctx:
         self.fact_polys.append(p)
 
     def check_deadline(self):
-        if self.deadline is not None and time.time() > self.deadline:
+        if self.deadline is not None and time.process_time() > self.deadline:  # CPU time of this prover process: independent of the load of the machine
             raise Budget()
 
 
@@ -1417,7 +1417,7 @@ def is_zero(p, budget=None):
     C = ctx()
     old = C.deadline
     if budget is not None:
-        C.deadline = time.time() + budget
+        C.deadline = time.process_time() + budget
     try:
         p = lift(p)
         if isinstance(p, Special):
